@@ -15,7 +15,8 @@ RULE = ("cases: every tensor op and nn op/layer/loss of the catalogues x {float3
         "retained interior gradient; float32 result agrees with the float64 result to 1e-4*max(1,|.|max).  "
         "non-trivial: result is 0-d, or operands broadcast / have different shapes, or g.dtype != result.dtype, "
         "or a Python-scalar operand, or the retained-interior form; distinct by hash of the case"
-        " Also: mixed operand dtypes for the gradient rule, backward re-rooted on leaves, BatchNorm train->eval histories (buffer dtypes), tensors of 4,000-70,000 elements; histories on 0-d..2-d leaves / nn.Parameters of both dtypes (direct backward with either upstream dtype, mixed-dtype graphs, zero_(), Module.zero_grad(), Optimizer.zero_grad()) with .grad dtype and shape checked after every command; tensors of 2^20 - 2^21 elements.")
+        " Also: mixed operand dtypes for the gradient rule, backward re-rooted on leaves, BatchNorm train->eval histories (buffer dtypes), tensors of 4,000-70,000 elements; histories on 0-d..2-d leaves / nn.Parameters of both dtypes (direct backward with either upstream dtype, mixed-dtype graphs, zero_(), Module.zero_grad(), Optimizer.zero_grad()) with .grad dtype and shape checked after every command; tensors of 2^20 - 2^21 elements."
+        " Round 6: NumPy-scalar operands keep the tensor's dtype.")
 ASSUMPTIONS = ["operands of one call share a dtype (mixed-dtype operands are not part of the statement)",
                "reference shapes come from the NumPy reference models of the catalogues"]
 
